@@ -76,7 +76,7 @@ def run(seed, tier, lean) -> Result:
                       'exist/notExist with a requirement) x valid models (non-default defenses, names containing ":", gaps and negative ids); '
                       'node list compared with an independent reference and with the Lean model, lookups for present and absent keys; '
                       'non-trivial = >= 2 assets of different types one of which inherits a step')
-    n = 300 if tier == 'quick' else 15000
+    n = 300 if tier == 'quick' else 1800
     cases = []
     for i in range(n):
         r = random.Random(rnd.getrandbits(48))
